@@ -13,6 +13,9 @@ pub enum Kind {
     Stiff,      // y1' = -1000 (y1 - cos t) - sin t ; y2' = -y2   (Prothero–Robinson)
     Blowup,     // y' = y^2
     Const,      // y' = (1, -2)
+    VdPStiff,   // van der Pol mu = 1000
+    Robertson,  // chemical kinetics, rates 0.04 / 1e4 / 3e7
+    Slow,       // y' = -0.01 y  (two components): the automatic first step is long
 }
 pub const SMOOTH: [Kind; 6] = [Kind::Harmonic, Kind::Logistic, Kind::Decay3, Kind::Riccati, Kind::VdP, Kind::Mixed];
 
@@ -41,8 +44,8 @@ impl Prob {
     }
     pub fn n(&self) -> usize {
         match self.kind {
-            Kind::Harmonic | Kind::VdP | Kind::Mixed | Kind::Stiff | Kind::Const => 2,
-            Kind::Decay3 => 3,
+            Kind::Harmonic | Kind::VdP | Kind::Mixed | Kind::Stiff | Kind::Const | Kind::VdPStiff | Kind::Slow => 2,
+            Kind::Decay3 | Kind::Robertson => 3,
             _ => 1,
         }
     }
@@ -57,6 +60,9 @@ impl Prob {
             Kind::Stiff => vec![1.0, 1.0],
             Kind::Blowup => vec![1.0],
             Kind::Const => vec![0.0, 1.0],
+            Kind::VdPStiff => vec![2.0, 0.0],
+            Kind::Robertson => vec![1.0, 0.0, 0.0],
+            Kind::Slow => vec![1.0, 2.0],
         }
     }
     pub fn rhs(&self, t: f64, y: &[f64], d: &mut [f64]) {
@@ -74,6 +80,13 @@ impl Prob {
             Kind::Stiff => { d[0] = -1000.0 * (y[0] - t.cos()) - t.sin(); d[1] = -y[1]; }
             Kind::Blowup => { d[0] = y[0] * y[0]; }
             Kind::Const => { d[0] = 1.0; d[1] = -2.0; }
+            Kind::VdPStiff => { d[0] = y[1]; d[1] = 1000.0 * (1.0 - y[0] * y[0]) * y[1] - y[0]; }
+            Kind::Slow => { d[0] = -0.01 * y[0]; d[1] = -0.01 * y[1]; }
+            Kind::Robertson => {
+                d[0] = -0.04 * y[0] + 1.0e4 * y[1] * y[2];
+                d[1] = 0.04 * y[0] - 1.0e4 * y[1] * y[2] - 3.0e7 * y[1] * y[1];
+                d[2] = 3.0e7 * y[1] * y[1];
+            }
         }
     }
     /// exact solution from the default y0 at t0 = 0 (None if not closed-form)
@@ -85,6 +98,7 @@ impl Prob {
             Kind::Riccati => Some(vec![1.0 / (1.0 + t * t)]),
             Kind::Stiff => Some(vec![t.cos(), (-t).exp()]),
             Kind::Const => Some(vec![t, 1.0 - 2.0 * t]),
+            Kind::Slow => Some(vec![(-0.01 * t).exp(), 2.0 * (-0.01 * t).exp()]),
             _ => None,
         }
     }
@@ -163,6 +177,13 @@ impl IVP for Prob {
             Kind::Stiff => { j[(0, 0)] = -1000.0; j[(0, 1)] = 0.0; j[(1, 0)] = 0.0; j[(1, 1)] = -1.0; }
             Kind::Blowup => { j[(0, 0)] = 2.0 * y[0]; }
             Kind::Const => { j[(0, 0)] = 0.0; j[(0, 1)] = 0.0; j[(1, 0)] = 0.0; j[(1, 1)] = 0.0; }
+            Kind::VdPStiff => { j[(0, 0)] = 0.0; j[(0, 1)] = 1.0; j[(1, 0)] = -2000.0 * y[0] * y[1] - 1.0; j[(1, 1)] = 1000.0 * (1.0 - y[0] * y[0]); }
+            Kind::Slow => { j[(0, 0)] = -0.01; j[(0, 1)] = 0.0; j[(1, 0)] = 0.0; j[(1, 1)] = -0.01; }
+            Kind::Robertson => {
+                j[(0, 0)] = -0.04; j[(0, 1)] = 1.0e4 * y[2]; j[(0, 2)] = 1.0e4 * y[1];
+                j[(1, 0)] = 0.04; j[(1, 1)] = -1.0e4 * y[2] - 6.0e7 * y[1]; j[(1, 2)] = -1.0e4 * y[1];
+                j[(2, 0)] = 0.0; j[(2, 1)] = 6.0e7 * y[1]; j[(2, 2)] = 0.0;
+            }
         }
     }
 }
